@@ -104,31 +104,34 @@ func (p *Prog) Callees(call ssa.CallInstruction) (in []*ssa.Function, external b
 		}
 	}
 	if c.IsInvoke() {
-		external = true // unknown implementers
-		for _, m := range p.SPkg.Members {
-			t, ok := m.(*ssa.Type)
-			if !ok {
+		// the dynamic types the receiver may have, as far as stores inside the package tell
+		concrete, unknown := p.ifaceTypes(c.Value, 0, map[ssa.Value]bool{})
+		if unknown {
+			external = true
+		}
+		if unknown && !p.appSupplied(c.Value) {
+			// unknown origin inside the package: fall back to every in-package implementer
+			for _, m := range p.SPkg.Members {
+				if t, ok := m.(*ssa.Type); ok {
+					concrete = append(concrete, t.Type(), types.NewPointer(t.Type()))
+				}
+			}
+		}
+		iface, _ := c.Value.Type().Underlying().(*types.Interface)
+		for _, rt := range concrete {
+			if types.IsInterface(rt) || iface == nil || !types.Implements(rt, iface) {
 				continue
 			}
-			for _, rt := range []types.Type{t.Type(), types.NewPointer(t.Type())} {
-				if types.IsInterface(rt) {
-					continue
-				}
-				if !types.Implements(rt, c.Value.Type().Underlying().(*types.Interface)) {
-					continue
-				}
-				sel := p.SSA.MethodSets.MethodSet(rt).Lookup(c.Method.Pkg(), c.Method.Name())
-				if sel == nil {
-					continue
-				}
-				fn := p.SSA.MethodValue(sel)
-				// promoted methods through embedded external interfaces are wrappers: look inside
-				if fn != nil && fn.Synthetic != "" {
-					external = true
-					continue
-				}
-				add(fn)
+			sel := p.SSA.MethodSets.MethodSet(rt).Lookup(c.Method.Pkg(), c.Method.Name())
+			if sel == nil {
+				continue
 			}
+			fn := p.SSA.MethodValue(sel)
+			if fn != nil && fn.Synthetic != "" {
+				external = true
+				continue
+			}
+			add(fn)
 		}
 		return
 	}
@@ -499,4 +502,87 @@ func (p *Prog) NonNilGlobal(g *ssa.Global) bool {
 		}
 	}
 	return p.nonNilG[g]
+}
+
+// appSupplied: the interface value is a parameter of the enclosing function
+// (supplied by the application when the function is API).
+func (p *Prog) appSupplied(v ssa.Value) bool {
+	for i := 0; i < 4; i++ {
+		switch x := v.(type) {
+		case *ssa.Parameter:
+			return true
+		case *ssa.ChangeInterface:
+			v = x.X
+		case *ssa.Phi:
+			for _, e := range x.Edges {
+				if !p.appSupplied(e) {
+					return false
+				}
+			}
+			return len(x.Edges) > 0
+		default:
+			return false
+		}
+	}
+	return false
+}
+
+// ifaceTypes traces an interface-typed value to the concrete types boxed into
+// it inside the package; unknown reports that some origin is not visible.
+func (p *Prog) ifaceTypes(v ssa.Value, depth int, seen map[ssa.Value]bool) (concrete []types.Type, unknown bool) {
+	if seen[v] || depth > 8 {
+		return nil, false
+	}
+	seen[v] = true
+	switch x := v.(type) {
+	case *ssa.MakeInterface:
+		return []types.Type{x.X.Type()}, false
+	case *ssa.ChangeInterface:
+		return p.ifaceTypes(x.X, depth+1, seen)
+	case *ssa.Const:
+		return nil, false
+	case *ssa.Phi:
+		for _, e := range x.Edges {
+			c, u := p.ifaceTypes(e, depth+1, seen)
+			concrete = append(concrete, c...)
+			unknown = unknown || u
+		}
+		return
+	case *ssa.UnOp:
+		if fa, ok := x.X.(*ssa.FieldAddr); ok {
+			vals := p.FieldStores(fieldOf(fa))
+			if len(vals) == 0 {
+				return nil, true
+			}
+			for _, sv := range vals {
+				c, u := p.ifaceTypes(sv, depth+1, seen)
+				concrete = append(concrete, c...)
+				unknown = unknown || u
+			}
+			return
+		}
+		if al, ok := x.X.(*ssa.Alloc); ok {
+			for _, ref := range *al.Referrers() {
+				if st, ok := ref.(*ssa.Store); ok && st.Addr == al {
+					c, u := p.ifaceTypes(st.Val, depth+1, seen)
+					concrete = append(concrete, c...)
+					unknown = unknown || u
+				}
+			}
+			return
+		}
+	case *ssa.Call:
+		// result of an in-package function: union over its returns
+		if f := x.Call.StaticCallee(); f != nil && p.InPkg(f) {
+			for _, b := range f.Blocks {
+				if ret, ok := b.Instrs[len(b.Instrs)-1].(*ssa.Return); ok && len(ret.Results) >= 1 {
+					c, u := p.ifaceTypes(ret.Results[0], depth+1, seen)
+					concrete = append(concrete, c...)
+					unknown = unknown || u
+				}
+			}
+			return
+		}
+	}
+	return nil, true
 }
